@@ -35,11 +35,22 @@ func tokenSpace(maxLen int) int {
 }
 
 type c01Layout struct {
-	cur, tok, tokMul, tok4, gen int
+	cur, tok, tokMul, tok4, gen, sweep int
 }
 
+// paddings swept around the bufio buffer sizes
+func c01Padding(i int) int {
+	const span = 96 // 4096-72 .. 4096+23, then the same around 8192
+	if i < span {
+		return 4096 - 72 + i
+	}
+	return 8192 - 72 + (i - span)
+}
+
+const c01Paddings = 192
+
 func (c01) layout(tier string) c01Layout {
-	l := c01Layout{cur: len(gen.Curated), tok: tokenSpace(3), tokMul: 1, gen: 4000}
+	l := c01Layout{cur: len(gen.Curated), tok: tokenSpace(3), tokMul: 1, gen: 4000, sweep: gen.BoundaryTemplates * c01Paddings}
 	if tier == "thorough" {
 		l.tokMul = 8 // 4 source kinds x {no aliases, alias table}
 		l.tok4 = gen.NumTokenStrings(4) / 8
@@ -50,7 +61,7 @@ func (c01) layout(tier string) c01Layout {
 
 func (p c01) NumCases(tier string) int {
 	l := p.layout(tier)
-	return l.cur*8 + l.tok*l.tokMul + l.tok4 + l.gen
+	return l.cur*8 + l.tok*l.tokMul + l.tok4 + l.sweep + l.gen
 }
 
 func tokenStringAt(i int) string {
@@ -121,6 +132,14 @@ func (p c01) Gen(seed uint64, tier string, idx int) (*Case, bool) {
 		c.Note = "token-string=4"
 		return c, true
 	}
+	idx -= l.tok4
+	if idx < l.sweep {
+		c.Src = gen.BoundarySweep(idx/c01Paddings, c01Padding(idx%c01Paddings))
+		setKind(c, c01Kinds[idx%4], src)
+		c.Note = "boundary-sweep"
+		return c, true
+	}
+	idx -= l.sweep
 	// generated programs and mutants
 	o := gen.FullOpts()
 	o.BigWords = true
